@@ -26,7 +26,7 @@ _LIST_METHODS = {"index", "count", "copy"}
 _BUILTINS = {"len": len, "int": int, "str": str, "float": float, "abs": abs, "min": min, "max": max, "range": range,
              "bool": bool, "list": list, "tuple": tuple, "set": set, "sorted": sorted, "any": any, "all": all, "sum": sum,
              "enumerate": enumerate, "zip": zip, "reversed": reversed, "ord": ord, "chr": chr, "repr": repr, "dict": dict,
-             "frozenset": frozenset, "round": round}
+             "frozenset": frozenset, "round": round, "deque": __import__("collections").deque}
 
 
 def _member(a, b):
@@ -59,6 +59,16 @@ def ceval(e: ast.AST, env: dict, stubs: dict | None = None):
         if e.id in ("True", "False", "None"):
             return {"True": True, "False": False, "None": None}[e.id]
         raise Unsupported(f"partial evaluation: free name {e.id}")
+    if isinstance(e, ast.Attribute) and isinstance(e.ctx, ast.Load):
+        # a field of a record made from one of the repository's NamedTuple classes (see PathEval.record_classes)
+        b = ceval(e.value, env, stubs)
+        if isinstance(b, _Unknown):
+            return b
+        if isinstance(b, tuple) and hasattr(b, "_fields") and e.attr in b._fields:
+            return getattr(b, e.attr)
+        if type(b).__name__ == "ConstInst" and e.attr in b.fields:      # a record made by the constant evaluator (model.ConstInst)
+            return b.fields[e.attr]
+        raise Unsupported(f"partial evaluation: attribute `{norm(e)}`")
     if isinstance(e, ast.BoolOp):
         if isinstance(e.op, ast.And):
             v = True
@@ -101,7 +111,16 @@ def ceval(e: ast.AST, env: dict, stubs: dict | None = None):
         vals = [ceval(x, env, stubs) for x in e.elts]
         return tuple(vals) if isinstance(e, ast.Tuple) else (set(vals) if isinstance(e, ast.Set) else vals)
     if isinstance(e, ast.Dict):
-        return {ceval(k, env, stubs): ceval(v, env, stubs) for k, v in zip(e.keys, e.values)}
+        out_d = {}
+        for k, v in zip(e.keys, e.values):
+            if k is None:               # {**other}
+                other = ceval(v, env, stubs)
+                if isinstance(other, _Unknown):
+                    return other
+                out_d.update(other)
+            else:
+                out_d[ceval(k, env, stubs)] = ceval(v, env, stubs)
+        return out_d
     if isinstance(e, ast.Subscript):
         b = ceval(e.value, env, stubs)
         if isinstance(e.slice, ast.Slice):
@@ -125,7 +144,8 @@ def ceval(e: ast.AST, env: dict, stubs: dict | None = None):
                 out += format(v, spec)
         return out
     if isinstance(e, ast.Call):
-        is_pe_call = isinstance(e.func, ast.Name) and "__pe__" in stubs and e.func.id in stubs["__pe__"][0].calls
+        is_pe_call = isinstance(e.func, ast.Name) and "__pe__" in stubs and (e.func.id in stubs["__pe__"][0].calls or e.func.id in getattr(stubs["__pe__"][0], "record_classes", {}))
+        is_pe_call = is_pe_call or (isinstance(e.func, ast.Name) and isinstance(env.get(e.func.id), type) and hasattr(env.get(e.func.id), "_fields"))
         if e.keywords and not is_pe_call and not all(k.arg in ("maxsplit", "sep", "start", "key", "reverse") for k in e.keywords):
             raise Unsupported(f"partial evaluation: keyword arguments in `{norm(e)}`")
         kw = {k.arg: ceval(k.value, env, stubs) for k in e.keywords} if not is_pe_call else {}
@@ -156,6 +176,23 @@ def ceval(e: ast.AST, env: dict, stubs: dict | None = None):
             return pe.call(e.func.id, argv, st_)
         if isinstance(e.func, ast.Name) and e.func.id in stubs.get("__calls__", {}) and not e.keywords:
             return call_function(e.func.id, [_arg(a, env, stubs) for a in e.args], stubs, env)
+        if isinstance(e.func, ast.Name) and e.func.id in env and isinstance(env[e.func.id], type) and issubclass(env[e.func.id], tuple) and hasattr(env[e.func.id], "_fields"):
+            # `cls(...)` inside a classmethod of a record class
+            return env[e.func.id](*[ceval(a, env, stubs) for a in e.args], **{k.arg: ceval(k.value, env, stubs) for k in e.keywords})
+        if "__pe__" in stubs and isinstance(e.func, ast.Attribute) and isinstance(e.func.value, ast.Name) and e.func.value.id not in env \
+                and f"{e.func.value.id}.{e.func.attr}" in stubs["__pe__"][0].calls and e.func.value.id in getattr(stubs["__pe__"][0], "record_classes", {}):
+            # a classmethod / staticmethod of a record class:  _Fields.from_line(line)
+            pe, st_ = stubs["__pe__"]
+            key_ = f"{e.func.value.id}.{e.func.attr}"
+            fnode_ = pe.calls[key_][0]
+            is_cm = any(norm(d) == "classmethod" for d in fnode_.decorator_list)
+            argv = ([pe.record_classes[e.func.value.id]] if is_cm else []) + [ceval(a, env, stubs) for a in e.args]
+            return pe.call(key_, argv, st_)
+        if isinstance(e.func, ast.Name) and "__pe__" in stubs and e.func.id in getattr(stubs["__pe__"][0], "record_classes", {}) and e.func.id not in env:
+            cls_ = stubs["__pe__"][0].record_classes[e.func.id]
+            argv = [ceval(a, env, stubs) for a in e.args]
+            kws = {k.arg: ceval(k.value, env, stubs) for k in e.keywords}
+            return cls_(*argv, **kws)
         if isinstance(e.func, ast.Name) and "__pe__" in stubs and e.func.id in getattr(stubs["__pe__"][0], "opaque_classes", ()) and e.func.id not in env:
             for a in e.args:
                 _arg(a, env, stubs)
@@ -175,6 +212,8 @@ def ceval(e: ast.AST, env: dict, stubs: dict | None = None):
                 for a in e.args:
                     _arg(a, env, stubs)
                 return UNKNOWN
+            if isinstance(recv, ContextDefault) and m == "get" and not e.args:
+                return recv.default
             if isinstance(recv, _Unknown):
                 for a in e.args:
                     _arg(a, env, stubs)
@@ -186,6 +225,8 @@ def ceval(e: ast.AST, env: dict, stubs: dict | None = None):
             if isinstance(recv, dict) and m in ("get", "keys", "values", "items"):
                 return getattr(recv, m)(*[ceval(a, env, stubs) for a in e.args])
             if "__pe__" in stubs and isinstance(recv, (dict, list, set)) and m in ("setdefault", "pop", "copy", "union", "intersection", "difference", "issubset"):
+                return getattr(recv, m)(*[ceval(a, env, stubs) for a in e.args])
+            if "__pe__" in stubs and type(recv).__name__ == "deque" and m in ("popleft", "pop", "copy", "count", "index"):
                 return getattr(recv, m)(*[ceval(a, env, stubs) for a in e.args])
             import re as _re
             if isinstance(recv, _re.Pattern) and m in ("match", "search", "fullmatch", "findall", "split", "sub"):
@@ -329,6 +370,13 @@ class _Unknown:
 
 
 UNKNOWN = _Unknown()
+
+
+class ContextDefault:
+    """a module-level contextvars.ContextVar as seen by code that never entered a context that sets it: get() gives the default"""
+
+    def __init__(self, default):
+        self.default = default
 
 
 class Opaque:
@@ -686,6 +734,7 @@ class PathEval:
         self.depth = 0
         self.try_depth = 0
         self.opaque_classes: set[str] = set()      # names of repository classes whose instances are not followed
+        self.record_classes: dict = {}             # name -> namedtuple class rebuilt from a NamedTuple class of the repository
         self.stop: dict[int, str] = {}             # id(statement) -> tag: a path that arrives there ends, leaving as 'stop:<tag>'
 
     def gap(self, what: str):
@@ -1119,3 +1168,23 @@ def _as_load(t):
         if hasattr(n, "ctx"):
             n.ctx = ast.Load()
     return t2
+
+
+def record_class_of(cls_node: ast.ClassDef):
+    """a namedtuple class with the fields (and constant defaults) of a `class X(NamedTuple)` of the repository, or None"""
+    import collections
+    if not any(norm(b).endswith("NamedTuple") for b in cls_node.bases):
+        return None
+    fields, defaults = [], []
+    for st in cls_node.body:
+        if isinstance(st, ast.AnnAssign) and isinstance(st.target, ast.Name):
+            fields.append(st.target.id)
+            if st.value is not None:
+                if not isinstance(st.value, ast.Constant):
+                    return None
+                defaults.append(st.value.value)
+            elif defaults:
+                return None
+    if not fields:
+        return None
+    return collections.namedtuple(cls_node.name, fields, defaults=defaults or None)
